@@ -136,8 +136,12 @@ pub open spec fn item_ok(q: &QueueItem<'_>, comps: Seq<pavex_bp_schema::Componen
 /// back are the chains after the last component; the ids in the chains denote those very registrations.
 pub open spec fn level_ok(a1: &AuxiliaryData, comps: Seq<pavex_bp_schema::Component>,
                           chain0: Seq<UserComponentId>, chain1: Seq<UserComponentId>, obs0: Seq<UserComponentId>, obs1: Seq<UserComponentId>,
-                          q0: Seq<QueueItem<'_>>, q1: Seq<QueueItem<'_>>, scope: ScopeId, lens: Seq<int>, origin: Seq<int>) -> bool {
+                          q0: Seq<QueueItem<'_>>, q1: Seq<QueueItem<'_>>, scope: ScopeId, lens: Seq<int>, origin: Seq<int>, n_loop: int) -> bool {
     &&& lens.len() == comps.len()
+    // whatever handler is recorded after the last component (the fallback of this blueprint, user-registered or the
+    // framework's default at the root) gets the chains as they stand at the END of the blueprint
+    &&& forall |h: UserComponentId| #[trigger] a1.handler_id2middleware_ids@.contains_key(h) && h.raw >= n_loop ==> route_ok(a1, h, chain1, obs1)
+    &&& forall |h: UserComponentId| #[trigger] a1.handler_id2error_observer_ids@.contains_key(h) && h.raw >= n_loop ==> route_ok(a1, h, chain1, obs1)
     &&& chain1 == chain0 + mw_before(comps, lens, comps.len() as int)
     &&& obs1 == obs0 + obs_before(comps, lens, comps.len() as int)
     &&& forall |j: int| 0 <= j < comps.len() && (#[trigger] comps[j]) is Route ==>
